@@ -36,6 +36,10 @@ EXPLANATION += ' R2 now also covers the QCSchema writer (json.dump sink); R3 eva
 TECHNIQUE += '; evaluation of the [Atoms] unit selection on every spelling'
 EXPLANATION += ' Added: (R6) Molden `[Atoms]` line: the unit keyword (AU / Angs, any case, with or without parentheses) selects the coordinate factor, evaluated with a marker factor; the units domain joins units under partial in-place scaling (a slice scaled, or entries stored after the array was scaled, carry a mixed unit).'
 # --- end metadata batch 7
+# --- metadata added for batch 8
+TECHNIQUE += '; reader routines evaluated with marker factors (VASP header, GRO frame)'
+EXPLANATION += " Added: (R7) VASP cell and Cartesian positions carry scaling factor x angstrom, direct positions the cell's unit (C03-R22 with angstrom = 1000); (R8) GRO time in ps, positions and box in nm, velocities in nm/ps however the numbers are written (C03-R23 with marker factors)."
+# --- end metadata batch 8
 TRUSTED = ["CPython ast parser", "frozen unit oracle (DESIGN.md Appendix A; format specifications)", "frozen CODATA 2018 values in spec/codata.json"]
 
 # non-plain reader slots: (module, key path) -> expected tag text.  Everything else must be plain.
